@@ -63,6 +63,15 @@ def gen_cfg_grammar(rng):
             directives['eol_comments'] = EOLC
         else:
             settings_extra(settings)['eol_comments'] = EOLC
+    if rng.random() < 0.35:
+        # grammar tokens written in upper / mixed case (ignorecase compares both sides case-folded; without it they match exactly)
+        from props.c02 import map_exp
+
+        def up(e):
+            if E.kind(e) == 'tok' and e[1].isalpha() and rng.random() < 0.6:
+                return ('tok', rng.choice([e[1].upper(), e[1].capitalize(), e[1].swapcase()]))
+            return e
+        g['rules'] = [(n, d, map_exp(e, up)) for n, d, e in g['rules']]
     g['directives'] = directives
     return g, settings, ws, has_comments, has_eol
 
@@ -129,6 +138,9 @@ def shard(col, shard_i, ngrammars, ninputs):
             lex = G.sample_sentence(rng, g, g['rules'][0][2])
             if rng.random() < 0.3 and lex:
                 lex[rng.randrange(len(lex))] = rng.choice(['a', 'b', 'if', 'x', 'IF', 'Ab', 'a-b', 'if1'])
+            if rng.random() < 0.3 and lex:
+                i = rng.randrange(len(lex))
+                lex[i] = rng.choice([lex[i].upper(), lex[i].lower(), lex[i].swapcase(), lex[i].capitalize()])
             texts.append(G.join_lexemes(rng, lex, gaps=(' ', ' ', ' ', ''))[:40])
         for t in texts:
             base = R.Case(g, t, None, settings, tag='base')
